@@ -353,7 +353,7 @@ type C13SitesCase struct {
 // C13SiteStep ...
 type C13SiteStep struct {
 	Gap  int    `json:"gap"`  // per-mille of the interval since the previous step
-	Site string `json:"site"` // partial (Endpoints event), full (global ConfigMap event), leader (leader acquired)
+	Site string `json:"site"` // partial (Endpoints event), full (global ConfigMap event), class (IngressClass event: asks for a full sync), leader (leader acquired)
 }
 
 func genC13Sites(t *rapid.T) C13SitesCase {
@@ -362,7 +362,7 @@ func genC13Sites(t *rapid.T) C13SitesCase {
 	for i := 0; i < n; i++ {
 		c.Steps = append(c.Steps, C13SiteStep{
 			Gap:  rapid.SampledFrom([]int{50, 200, 500, 900, 1100, 1500, 2500}).Draw(t, "gap"),
-			Site: rapid.SampledFrom([]string{"partial", "partial", "full", "full", "leader", "leader"}).Draw(t, "site"),
+			Site: rapid.SampledFrom([]string{"partial", "full", "class", "class", "leader", "leader"}).Draw(t, "site"),
 		})
 	}
 	return c
@@ -415,6 +415,9 @@ func execC13Sites(c C13SitesCase) *Failure {
 	cm := func(n int) *world.Obj {
 		return &world.Obj{Kind: world.KConfigMap, NS: world.CtlNS, Name: "haproxy-ingress", Gen: int64(n), Data: map[string]string{"timeout-client": fmt.Sprintf("%ds", 30+n)}}
 	}
+	ic := func(n int) *world.Obj {
+		return &world.Obj{Kind: world.KIngressClass, Name: world.OurClass, Controller: world.ControllerName, Gen: int64(n)}
+	}
 	at := time.Duration(0)
 	leaderSteps := 0
 	for i, stp := range c.Steps {
@@ -425,6 +428,9 @@ func execC13Sites(c C13SitesCase) *Failure {
 			qr.Dispatch("update", ep(i).ToK8s(), ep(i+1).ToK8s())
 		case "full":
 			qr.Dispatch("update", cm(i).ToK8s(), cm(i+1).ToK8s())
+		case "class":
+			// watchers of this kind ask for a full synchronization, which is the queue item of the leader's request
+			qr.Dispatch("update", ic(i).ToK8s(), ic(i+1).ToK8s())
 		case "leader":
 			leaderSteps++
 			qr.LeaderChanged(true)
@@ -470,13 +476,28 @@ func execC13Sites(c C13SitesCase) *Failure {
 	// earliest instant the limiter granted to requests of that kind. A run that an enqueue site obtained without
 	// the limiter (or before the granted instant) breaks this.
 	for _, kind := range []bool{false, true} {
-		var granted []time.Duration
+		// Requests of the same kind are the same queue item: one that arrives while another one is clearly still
+		// waiting for the instant it was granted (and is granted that same instant) is coalesced by the queue, they
+		// are served by one run. A request that arrives close to the instant itself (5ms) may find the item already
+		// being processed and legitimately cause a run of its own, so it counts as a grant of its own.
+		var kcalls []*call
 		for _, cl := range calls {
 			if cl.full == kind {
-				granted = append(granted, cl.tb+cl.d)
+				kcalls = append(kcalls, cl)
 			}
 		}
-		sort.Slice(granted, func(i, j int) bool { return granted[i] < granted[j] })
+		sort.SliceStable(kcalls, func(i, j int) bool { return kcalls[i].tb+kcalls[i].d < kcalls[j].tb+kcalls[j].d })
+		var granted []time.Duration
+		coalesced := 0
+		for _, cl := range kcalls {
+			g := cl.tb + cl.d
+			if n := len(granted); n > 0 && g-granted[n-1] < time.Millisecond/2 && cl.ta < granted[n-1]-5*time.Millisecond {
+				coalesced++
+				continue
+			}
+			granted = append(granted, g)
+		}
+		st.Count("site_requests_coalesced", coalesced)
 		n := 0
 		last := time.Duration(-1)
 		for i, r := range runs {
@@ -485,7 +506,7 @@ func execC13Sites(c C13SitesCase) *Failure {
 			}
 			last = r.at
 			if n >= len(granted) {
-				return failf("C13:sites:run-not-rate-limited", "reconciliation %d (full=%v) started at %v although every request of that kind granted by the rate limiter had already been served: an enqueue site bypasses the limiter (interval %v)%s", i, r.full, r.at.Round(10*time.Microsecond), interval, desc())
+				return failf("C13:sites:run-not-rate-limited", "reconciliation %d (full=%v) started at %v although every request of that kind granted by the rate limiter had already been served (requests that arrived while another one of the same kind was pending share its run): an enqueue site bypasses the limiter or is not coalesced (interval %v)%s", i, r.full, r.at.Round(10*time.Microsecond), interval, desc())
 			}
 			if r.at < granted[n]-time.Millisecond/2 {
 				return failf("C13:sites:ran-early", "reconciliation %d (full=%v) started at %v; it is run number %d of its kind and the rate limiter granted the %d earliest requests of that kind the instants %v (interval %v)%s", i, r.full, r.at.Round(10*time.Microsecond), n+1, n+1, granted[:n+1], interval, desc())
